@@ -51,6 +51,7 @@ type ksWorld struct {
 	touched [2]map[string]bool       // harness-side prediction of what each cache holds (state key only)
 	missed  [2]map[string]bool       // per instance: which kinds of lookups (get miss, has miss, has hit) touched which id since the last eviction/reopen. A cache may remember any of them differently, so they are part of the state key (an abstraction that merged "missed through GetKey" with "missed through HasKey" hid a seeded negative-caching defect)
 	nfill   int
+	expect  map[string][2]string // id -> independently computed (identity id, published key), for pre-seeded keys
 }
 
 func newKsWorld() *ksWorld {
@@ -109,6 +110,8 @@ func rawOf(k crypto.PrivKey) []byte {
 
 type ksCase struct {
 	Path []ksOp `json:"path"`
+	// Seed: the datastore already holds, for id "z", an id key and a signing key of these two shapes (c20crafted.go)
+	Seed []string `json:"seed,omitempty"`
 }
 
 func ksPath(p []ksOp) string {
@@ -244,6 +247,14 @@ func (w *ksWorld) checkIdentity(p *run.Part, o ksOp, id *idp.Identity, c ksCase,
 	} else {
 		w.idents[o.ID] = id
 	}
+	if ex, ok := w.expect[o.ID]; ok {
+		if id.ID != ex[0] {
+			viol("C20:identity-id-not-the-id-key", fmt.Sprintf("identity.ID is %s, the compressed public key of the stored id key is %s", id.ID, ex[0]))
+		}
+		if hex.EncodeToString(id.PublicKey) != ex[1] {
+			viol("C20:published-key-not-the-signing-key", fmt.Sprintf("identity.PublicKey is %x, the uncompressed public key (04 || X || Y, 32 bytes each) of the stored signing key is %s", id.PublicKey, ex[1]))
+		}
+	}
 	// id signature verifies under the published public key over the id
 	pub, err := crypto.UnmarshalSecp256k1PublicKey(id.PublicKey)
 	if err != nil {
@@ -286,8 +297,11 @@ func (w *ksWorld) checkIdentity(p *run.Part, o ksOp, id *idp.Identity, c ksCase,
 
 func ksReplay(p *run.Part, c ksCase) *ksWorld {
 	w := newKsWorld()
+	if len(c.Seed) == 2 {
+		w.seed(c.Seed[0], c.Seed[1])
+	}
 	for i, o := range c.Path {
-		w.apply(p, o, ksCase{Path: c.Path[:i+1]}, i == len(c.Path)-1)
+		w.apply(p, o, ksCase{Path: c.Path[:i+1], Seed: c.Seed}, i == len(c.Path)-1 || len(c.Seed) == 2)
 	}
 	return w
 }
@@ -412,6 +426,7 @@ func init() {
 		p.Rule = "states = (created ids, ids with an identity, predicted cache contents of each instance); non-trivial = states in which an identity (hence a derived key) exists"
 		p.Assume("two keystore instances, ids {a,b} plus the ids their identities denote, 128-key fillers for eviction; keys are random, so states are compared on abstract names; ECDSA/secp256k1 soundness is assumed")
 		c20Run(p, tier)
+		c20Crafted(p, tier)
 	}, Replay: func(p *run.Part, check string, raw []byte) {
 		var c ksCase
 		if err := jsonUnmarshal(raw, &c); err != nil {
